@@ -5,6 +5,7 @@
    is tied to the code by the correspondence check: model and implementation agree on the full call log and on
    the full EvictionCache trace of every generated case. *)
 From Connectome Require Import Values Attrs VM Edges Evaluator Sim L2 C01Main C01Inst EdgeFacts Examples.
+From Connectome Require EvictGen GraphGen.
 From Connectome Require ColStore ColumnsGen Columns ColumnsFacts EqFacts.
 Local Open Scope list_scope.
 
@@ -82,3 +83,11 @@ Example C03_example_column_miss :
       ColStore.CValue 0 ColumnsFacts.f11_key]).
 Proof. exact ColumnsFacts.f9_example. Qed.
 Print Assumptions C03_example_column_miss.
+
+(* The per-call tables of the machine model (Model/VM.v: evict, the counted-key assertion, two fresh tables per call over
+   counts doubled by Graph.__init__) are the ones engine/utils.py and engine/graph.py define (regenerated facts). *)
+Theorem C03_eviction_tables_are_translated :
+  EvictGen.evict_rule = "pop-at-one-else-decrement" /\ EvictGen.setitem_asserts_counted = true
+  /\ GraphGen.graph_multiplier = 2 /\ GraphGen.fresh_counts_per_call = true /\ GraphGen.count_rule = "path-count-dp".
+Proof. repeat split; reflexivity. Qed.
+Print Assumptions C03_eviction_tables_are_translated.
